@@ -394,8 +394,14 @@ class Run:
             ev["coverage"]["notes"] = self.notes
         if self.violations:
             ev["coverage"]["violation_signatures"] = sorted({v["signature"] for v in self.violations})
-        (VERIF / "evidence").mkdir(exist_ok=True)
-        (VERIF / "evidence" / f"{self.pid}.json").write_text(json.dumps(ev, indent=1, default=str) + "\n")
+        # evidence/<id>.json describes runs against /repo itself; a run against another tree
+        # (VERIF_REPO: seeded / harmless-refactoring experiments) writes its record elsewhere
+        evdir = VERIF / "evidence" if REPO.resolve() == Path("/repo") else SCRATCH / "evidence_other_tree"
+        if os.environ.get("VERIF_EVIDENCE_DIR"):
+            evdir = Path(os.environ["VERIF_EVIDENCE_DIR"])
+        evdir.mkdir(parents=True, exist_ok=True)
+        ev["repo"] = str(REPO)
+        (evdir / f"{self.pid}.json").write_text(json.dumps(ev, indent=1, default=str) + "\n")
         if self.violations:
             return 1
         print(f"OK property={self.pid} tier={self.tier} seed={self.seed} "
